@@ -537,6 +537,9 @@ macro_rules! trace_mod {
             if live.is_empty() { break; }
             let slot = if rng.below(5) == 0 { rng.pick(&live) } else { live[0] };
             let (cur, maxs, clen) = { let c = w.slots[slot].as_ref().unwrap(); (c.current_size(), c.max_size(), c.len()) };
+            let ccap = w.slots[slot].as_ref().unwrap().capacity();
+            // capacity arguments at the boundaries of the current table: exactly the room left, one more, the length, the capacity
+            let room = ccap.saturating_sub(clen);
             let id = rng.below(universe as u64) as u32;
             let kh = rng.pick(&[0usize, 0, 5]);
             let mut vh = rng.pick(&[0usize, 1, 17, 40, 200]);
@@ -601,10 +604,10 @@ macro_rules! trace_mod {
                 52 | 53 => Op::Retain(match rng.below(5) { 0 => 0, 1 => u64::MAX, 2 => 0x5555_5555_5555_5555, _ => rng.next() }),
                 54 => Op::Iter(rng.below(3) as u8, rand_pat(&mut rng, clen)),
                 55 => Op::Drain(rand_pat(&mut rng, clen), false),
-                56 => Op::TryReserve(rng.pick(&[0usize, 1, 5, 40, usize::MAX, usize::MAX / 2, 1 << 40]), rng.below(3) == 0),
-                57 => Op::ShrinkTo(rng.pick(&[0usize, 1, 4, 26, 27, 100, usize::MAX, usize::MAX / 2])),
+                56 => Op::TryReserve(rng.pick(&[0usize, 1, 5, 40, usize::MAX, usize::MAX / 2, 1 << 40, room, room + 1, room.saturating_sub(1)]), rng.below(3) == 0),
+                57 => Op::ShrinkTo(rng.pick(&[0usize, 1, 4, 26, 27, 100, usize::MAX, usize::MAX / 2, clen, clen + 1, ccap, ccap.saturating_sub(1), ccap / 2, 3, 7, 14, 15, 28, 29])),
                 58 => Op::ShrinkToFit,
-                59 => Op::Reserve(if rng.below(40) == 0 { rng.pick(&[usize::MAX, usize::MAX / 2 + 1]) } else { rng.pick(&[0usize, 1, 7, 30]) }),
+                59 => Op::Reserve(if rng.below(40) == 0 { rng.pick(&[usize::MAX, usize::MAX / 2 + 1]) } else { rng.pick(&[0usize, 1, 7, 30, room, room + 1]) }),
                 60 => Op::Clear,
                 61 => Op::Debug, 62 => Op::Len, 63 => Op::IsEmpty, 64 => Op::CurrentSize, 65 => Op::MaxSize, 66 => Op::Capacity,
                 67..=69 => { // clone into a free slot (dropping an old clone first)
